@@ -160,6 +160,7 @@ type ProxyOpts struct {
 	NoServer    bool
 	NoGoatPeers bool // raw pipes only: clients are scripted (CCs stay nil)
 	NoCallback  bool // the proxy is built without a disconnect callback (nil)
+	NoDemux     bool // the server serves the proxy link directly (one connection for all clients: fine for unary calls; streams of different clients would share the id space)
 	Servers     int  // >1: further servers "srv1", "srv2", ... (own transport, Demux and Server object each); client i talks to server i % Servers
 }
 
@@ -201,12 +202,20 @@ func NewProxyTopo(impl SvcServer, o ProxyOpts) *ProxyTopo {
 	if !o.NoServer {
 		t.Srv = goat.NewServer("srv")
 		t.Srv.RegisterService(&ServiceDesc, impl)
-		t.Demux = goat.NewDemux(t.Ctx, t.SPipe.B, func(r *Rpc) string { return r.GetHeader().GetSource() }, func(rw goat.RpcReadWriter) {
-			t.Serves++
-			t.Srv.Serve(t.Ctx, rw)
-			t.ServesDone++
-		})
-		vsched.GoNamed("demux", func() { t.Demux.Run(); t.DemuxDone = true })
+		if o.NoDemux {
+			vsched.GoNamed("serve", func() {
+				t.Serves++
+				t.Srv.Serve(t.Ctx, t.SPipe.B)
+				t.ServesDone++
+			})
+		} else {
+			t.Demux = goat.NewDemux(t.Ctx, t.SPipe.B, func(r *Rpc) string { return r.GetHeader().GetSource() }, func(rw goat.RpcReadWriter) {
+				t.Serves++
+				t.Srv.Serve(t.Ctx, rw)
+				t.ServesDone++
+			})
+			vsched.GoNamed("demux", func() { t.Demux.Run(); t.DemuxDone = true })
+		}
 		if o.PreAttach {
 			t.Proxy.AddClient("srv", t.SPipe.A)
 		}
